@@ -41,3 +41,35 @@ pub(crate) fn set_control(m: &mut RawMachine, done: bool, st: State) {
     m.microprogram_ram.set_address(if done { 0x006 } else { 0x000 });
     m.state = st;
 }
+
+// ---- the same abstract edge with a long horizon (thorough tier): catches counter-based early exits
+pub(crate) const KL: usize = 40;
+pub(crate) static mut L_EDGES: usize = 0;
+pub(crate) static mut L_FIRST_END: usize = 0; // first edge index after which the step must end (0 = none yet)
+
+/// Long-horizon variant: instead of logging everything, the ghost state tracks the FIRST edge after
+/// which the reference semantics ends the step.
+#[cfg(kani)]
+pub(crate) fn abstract_edge_long(m: &mut RawMachine) {
+    unsafe {
+        let was_done = m.is_instruction_done();
+        // inside an instruction: keep going for a symbolic number of edges, then complete or halt
+        let done: bool = kani::any();
+        let st = any_state();
+        let other: bool = kani::any();
+        let st = if L_EDGES + 1 >= KL { State::Stopped } else { st };
+        m.microprogram_ram.set_address(if done { 0x006 } else { 0x000 });
+        m.state = st;
+        if other {
+            m.last_bus_read = m.last_bus_read.wrapping_add(1);
+        }
+        L_EDGES += 1;
+        let changed = done != was_done || st != State::Running || other;
+        // reference: ends after this edge iff halted, or at a boundary having been inside (the harness
+        // starts inside an instruction), or stuck (unchanged while inside)
+        let ends = st != State::Running || done || (!done && !changed && !was_done);
+        if ends && L_FIRST_END == 0 {
+            L_FIRST_END = L_EDGES;
+        }
+    }
+}
